@@ -5,6 +5,6 @@ open IrohModel
 /-- payload: the harness script (grammar in `harness/hrelay/src/relayreg.rs`, plus the
 `raw` operation of `harness/hrelay/src/bin/c05.rs`); output as for C04/C06. -/
 def handleLine (payload : String) : String :=
-  RelaySched.runPayloadWith C05.parseRaw C05.driverCfg 8 payload
+  RelaySched.runPayloadWith C05.parseRaw C05.driverCfg 8 payload Generated.C05.writeTimeoutMs
 
 def main : IO Unit := Driver.run handleLine
